@@ -201,6 +201,12 @@ func genC01(r *h.Rng, tier string, idx int) *h.Plan {
 			events = append(events, map[string]interface{}{"tags": []interface{}{1.0, "1"}})
 		}
 	}
+	if r.P(1, 5) {
+		// one storage call of the history fails: the operation it belongs to reports
+		// an error, and whatever it leaves behind is one consistent thing - a rule
+		// that the location still hands out is still dispatched
+		p.Faults = append(p.Faults, h.Fault{Kind: r.Pick([]string{"store-error-before", "store-error-after"}), At: int64(r.Range(1, 40))})
+	}
 	if boolArrays {
 		events = append(events, map[string]interface{}{"flags": []interface{}{true, false}}, map[string]interface{}{"flags": []interface{}{false, true}, "kind": "x"})
 	}
